@@ -3,6 +3,9 @@ package main
 import (
 	"context"
 	"encoding/json"
+	"io"
+	"net"
+	"os"
 	"sync"
 
 	"github.com/varlink/go/varlink"
@@ -278,7 +281,11 @@ func (s *scriptedIface) VarlinkDispatch(ctx context.Context, c varlink.Call, met
 	}
 	s.log.add(id, inv)
 	if sc.fail {
-		return strErr("scripted handler failure")
+		// whatever the error is — also one that looks transient (a timeout, a cancelled context, EOF) — a handler
+		// that returns it ends its connection
+		errs := []error{strErr("scripted handler failure"), context.DeadlineExceeded, context.Canceled, io.EOF,
+			io.ErrUnexpectedEOF, &net.OpError{Op: "write", Net: "unix", Err: os.ErrDeadlineExceeded}}
+		return errs[(len(id)+len(methodname)+len(inv.results))%len(errs)]
 	}
 	return nil
 }
